@@ -96,6 +96,9 @@ func (e *Eng) includeTheories(names []string) {
 
 func (e *Eng) verifyFunc(fobj *types.Func) {
 	sig := fobj.Type().(*types.Signature)
+	if e.lit != nil {
+		sig = e.info.TypeOf(e.lit).(*types.Signature)
+	}
 	st := &State{vars: map[types.Object]*Val{}, path: "true", heap: map[string]string{}, base: []baseAlt{{cond: "true", epoch: "0"}}, counters: map[string]string{}}
 	env := map[string]*Val{}
 	bind := func(v *types.Var) {
@@ -107,14 +110,36 @@ func (e *Eng) verifyFunc(fobj *types.Func) {
 		env[v.Name()] = val
 		e.entrySyms = append(e.entrySyms, paramSym(v.Name(), val))
 	}
-	if sig.Recv() != nil {
+	if e.lit != nil {
+		// closure unit: every variable captured from the enclosing function is an unconstrained entry value
+		seen := map[types.Object]bool{}
+		ast.Inspect(e.lit, func(n ast.Node) bool {
+			id, ok := n.(*ast.Ident)
+			if !ok {
+				return true
+			}
+			obj, ok := e.info.Uses[id].(*types.Var)
+			if !ok || seen[obj] || obj.IsField() {
+				return true
+			}
+			if obj.Pos() >= e.lit.Pos() && obj.Pos() < e.lit.End() {
+				return true
+			}
+			if obj.Parent() == e.pkg.Types.Scope() || obj.Pkg() != e.pkg.Types {
+				return true
+			}
+			seen[obj] = true
+			bind(obj)
+			return true
+		})
+	} else if sig.Recv() != nil {
 		// receiver object from the decl (Defs), not sig
 		if e.fn.Recv != nil && len(e.fn.Recv.List) > 0 && len(e.fn.Recv.List[0].Names) > 0 {
 			obj := e.info.Defs[e.fn.Recv.List[0].Names[0]].(*types.Var)
 			bind(obj)
 		}
 	}
-	for _, f := range e.fn.Type.Params.List {
+	for _, f := range e.fnType().Params.List {
 		for _, n := range f.Names {
 			if obj, ok := e.info.Defs[n].(*types.Var); ok {
 				bind(obj)
@@ -122,9 +147,9 @@ func (e *Eng) verifyFunc(fobj *types.Func) {
 		}
 	}
 	// results
-	if e.fn.Type.Results != nil {
+	if e.fnType().Results != nil {
 		i := 0
-		for _, f := range e.fn.Type.Results.List {
+		for _, f := range e.fnType().Results.List {
 			if len(f.Names) == 0 {
 				obj := types.NewVar(token.NoPos, nil, fmt.Sprintf("res%d", i), e.info.TypeOf(f.Type))
 				e.results = append(e.results, obj)
@@ -168,13 +193,13 @@ func (e *Eng) verifyFunc(fobj *types.Func) {
 		e.decls = append(e.decls, fmt.Sprintf("(assert %s)", g.T))
 	}
 	e.declsAtEntry = append([]string{}, e.decls...)
-	end := e.execBlock(st, e.fn.Body.List)
+	end := e.execBlock(st, e.fnBody().List)
 	if end != nil {
 		var vals []*Val
 		for _, r := range e.results {
 			vals = append(vals, end.vars[r])
 		}
-		e.exits = append(e.exits, Exit{Kind: ExitReturn, St: end, Vals: vals, Pos: e.fn.Body.Rbrace})
+		e.exits = append(e.exits, Exit{Kind: ExitReturn, St: end, Vals: vals, Pos: e.fnBody().Rbrace})
 	}
 	// run deferred calls on every exit
 	exits := e.exits
@@ -243,4 +268,34 @@ func (e *Eng) verifyFunc(fobj *types.Func) {
 		}
 	}
 	_ = sig
+}
+
+func (e *Eng) fnType() *ast.FuncType {
+	if e.lit != nil {
+		return e.lit.Type
+	}
+	return e.fn.Type
+}
+
+func (e *Eng) fnBody() *ast.BlockStmt {
+	if e.lit != nil {
+		return e.lit.Body
+	}
+	return e.fn.Body
+}
+
+// nthFuncLit returns the n-th (1-based, source order) function literal inside the declaration.
+func nthFuncLit(fd *ast.FuncDecl, n int) *ast.FuncLit {
+	var res *ast.FuncLit
+	k := 0
+	ast.Inspect(fd.Body, func(x ast.Node) bool {
+		if fl, ok := x.(*ast.FuncLit); ok {
+			k++
+			if k == n {
+				res = fl
+			}
+		}
+		return res == nil
+	})
+	return res
 }
